@@ -3,7 +3,9 @@
 package endpointsharding
 
 import (
+	"reflect"
 	"sync/atomic"
+	"unsafe"
 
 	"google.golang.org/grpc/balancer"
 )
@@ -15,6 +17,25 @@ func VerifSetRandIntN(f func(int) int) func() {
 	return func() { randIntN = old }
 }
 
+// verifIndex finds the round-robin position a picker built by updateStateLocked uses, wherever it is
+// kept: a uint32 field of the picker named `next`, or a pointer to one.
+func verifIndex(pp *pickerWithChildStates) *uint32 {
+	f := reflect.ValueOf(pp).Elem().FieldByName("next")
+	if !f.IsValid() {
+		return nil
+	}
+	switch f.Kind() {
+	case reflect.Uint32:
+		return (*uint32)(unsafe.Pointer(f.UnsafeAddr()))
+	case reflect.Ptr:
+		if f.IsNil() || f.Type().Elem().Kind() != reflect.Uint32 {
+			return nil
+		}
+		return (*uint32)(unsafe.Pointer(f.Pointer()))
+	}
+	return nil
+}
+
 // VerifPickerInternals returns the delegate list and the current index of a picker built by
 // updateStateLocked.
 func VerifPickerInternals(p balancer.Picker) ([]balancer.Picker, uint32, bool) {
@@ -22,7 +43,11 @@ func VerifPickerInternals(p balancer.Picker) ([]balancer.Picker, uint32, bool) {
 	if !ok {
 		return nil, 0, false
 	}
-	return pp.pickers, atomic.LoadUint32(&pp.next), true
+	ix := verifIndex(pp)
+	if ix == nil {
+		return pp.pickers, 0, false
+	}
+	return pp.pickers, atomic.LoadUint32(ix), true
 }
 
 // VerifSetPickerNext overwrites the round-robin index of a picker built by updateStateLocked.
@@ -31,6 +56,10 @@ func VerifSetPickerNext(p balancer.Picker, v uint32) bool {
 	if !ok {
 		return false
 	}
-	atomic.StoreUint32(&pp.next, v)
+	ix := verifIndex(pp)
+	if ix == nil {
+		return false
+	}
+	atomic.StoreUint32(ix, v)
 	return true
 }
